@@ -57,7 +57,8 @@ def gen_instance(rng, ncust=None, kind=None, pos_cc=None, depot_self=None, max_t
         arcs.append((o, d, rng.randint(0, 3) if not (pos_cc and o != "D" and d != "D") else rng.randint(1, 3),
                      rng.randint(-2, 9)))
     grid = gen_grid(rng, nodes, kind, max_t)
-    return {"nodes": order, "depot": "D", "arcs": arcs, "grid": grid, "pos_cc": pos_cc}
+    return {"nodes": order, "depot": "D", "arcs": arcs, "grid": grid, "pos_cc": pos_cc,
+            "depot_last": bool(late_depot and len(arcs) % 2 == 0)}
 
 
 def shift_instance(inst, t0):
@@ -105,11 +106,48 @@ def build(inst):
     p = ArcBasedRoutingProblem()
     for (nm, dem, lo, hi) in inst["nodes"]:
         p.add_node(nm, dem, (lo, hi))
-    p.set_depot(inst["depot"])
-    for (o, d, tt, cost) in inst["arcs"]:
-        p.add_arc(o, d, tt, cost)
+    if inst.get("depot_last"):
+        # the depot is chosen AFTER the arcs exist (it was not the first node added): set_depot has to re-file the arcs
+        for (o, d, tt, cost) in inst["arcs"]:
+            p.add_arc(o, d, tt, cost)
+        p.set_depot(inst["depot"])
+    else:
+        p.set_depot(inst["depot"])
+        for (o, d, tt, cost) in inst["arcs"]:
+            p.add_arc(o, d, tt, cost)
     p.add_time_points(list(inst["grid"]))
     return p
+
+
+def described_graph(inst):
+    """The graph the description specifies, independently of the code: node order after the depot is moved to the front,
+    and the arcs that pass the base timing rule (origin window start + travel time <= destination window end), filed under
+    the positions of their own endpoints; a pair given twice is overwritten in place."""
+    nodes = [n for n in inst["nodes"] if n[0] == inst["depot"]] + [n for n in inst["nodes"] if n[0] != inst["depot"]]
+    pos = {n[0]: i for i, n in enumerate(nodes)}
+    win = {n[0]: (n[2], n[3]) for n in nodes}
+    arcs = {}
+    for (o, d, tt, cost) in inst["arcs"]:
+        if win[o][0] + tt <= win[d][1]:
+            arcs[(pos[o], pos[d])] = (o, d, tt, cost)
+    return [n[0] for n in nodes], arcs
+
+
+def graph_problem(inst, snap):
+    """None if the object's graph (snapshot) is the described one, else a message."""
+    names, arcs = described_graph(inst)
+    if list(snap[0]) != names:
+        return f"node order {list(snap[0])} differs from the described one {names}"
+    got = {k: tuple(v) for k, v in snap[2]}
+    for k, v in arcs.items():
+        if k not in got:
+            return f"described arc {v[0]}->{v[1]} is not filed under {k} (the object has {sorted(got)})"
+        if tuple(got[k]) != tuple(v):
+            return f"arc under key {k} is {got[k]}, the description says {v}"
+    for k in got:
+        if k not in arcs:
+            return f"the object holds an arc under {k} ({got[k]}) that the description does not give"
+    return None
 
 
 def snapshot(p):
